@@ -249,6 +249,29 @@ PROPS["C19"] = dict(
     thorough=dict(shards=16, checks=400, timeout_s=5400),
 )
 
+RUNNER_AUX = [dict(pkg="cmd/runner", out="runner")]
+CRASH_ASSUME = COMMON_ASSUME + [
+    "kill -9 model: the file system retains every completed system call (no power loss)",
+    "strace 6.1 reports every traced system call of every thread with its full data (-f -xx -s 1M); calls of different threads are ordered by completion",
+    "the inode model (harness/internal/fsmodel) is validated on every run: its final image must equal the child's real final directory byte for byte, unknown mutating calls abort the run (exit 2)",
+]
+
+PROPS["C02"] = dict(
+    pkg="props/c02", level="fault_enumeration", engine="E-crash", design_ref="§4 C02", aux_builds=RUNNER_AUX,
+    technique="PBT-generated workloads (rapid) run in a child under strace; EVERY system-call boundary of the run becomes a crash image (inode model) that the real recovery code must open to the acknowledged state",
+    rule=("evaluation = one distinct (crash image, acknowledgement state) of a traced run: programs of 1..2 sessions x 6..30 Put/Delete/rotate/compact-once steps over <=8 adversarial keys with the synchronous WAL, memstore limit "
+          "64..512 B, write buffer {16,64,4Mi}, compaction threshold 0..2 / max size / ratio, deterministic mode (flusher awaited after each step, hook-driven compaction) or free mode (real 1 ms ticker, un-awaited flushes), "
+          "optionally ending without Close; every boundary between two system calls of any thread is materialised and recovered in-process by simpledb.Open: Open must succeed, the key universe must read as the map of the "
+          "acknowledged operations (each in-flight operation present or absent), and Close+Open again must give the same content; non-trivial = boundary inside a multi-call protocol (WAL rotation, flush, compaction write/install, "
+          "recovery, shutdown), i.e. not between two operations and not a plain WAL append; distinct = (case hash, boundary sequence number)"),
+    level_text="All crash points of each traced run are enumerated (exhaustive per run); runs are sampled over programs x options x schedules.",
+    level_note="boundaries are exhaustive per traced run, runs are samples; power-loss behaviour (unsynced data lost) is outside the stated model",
+    assumptions=CRASH_ASSUME,
+    require_labels=["win:wal-rotation", "win:flush", "win:compaction-write", "win:compaction-install", "win:recovery", "win:shutdown"],
+    quick=dict(shards=16, checks=1, shrink_s=1, env=dict(VERIF_SHRINK_S=20)),
+    thorough=dict(shards=16, checks=25, shrink_s=1, timeout_s=7200, env=dict(VERIF_SHRINK_S=60)),
+)
+
 NOT_APPLICABLE = {}
 
 
